@@ -199,7 +199,7 @@ theorem read_failure_final (cv : Nat → Nat → Nat) (s0 : List WByte) (r : Rea
       (o.res = .err .invalidData →
         todo cv r wire = [] ∧ rstatus cv r wire = .bad ∧ rstatus cv o.r o.wire = .bad ∧ todo cv o.r o.wire = []) ∧
       (∀ e ∈ o.trace, e.1 ≤ MAX_FRAME_LEN) := by
-  obtain ⟨o, ho, _, htd, hst, _, hbad, ht⟩ := pollRead_spec cv m script r wire (rreach_inv hr)
+  obtain ⟨o, ho, _, htd, hst, _, hbad, ht, _, _⟩ := pollRead_spec cv m script r wire (rreach_inv hr)
   refine ⟨o, ho, ?_, ht⟩
   intro hres
   obtain ⟨h1, h2⟩ := hbad hres
@@ -281,5 +281,62 @@ theorem end_to_end (cv : Nat → Nat → Nat) (wops : List WOp) (rops : List (Na
     refine ⟨by rw [← htd]; exact ha, ?_⟩
     rw [hst]
     simp [rstatus, Reader.init, Buffer.new, Buffer.slice, hw, parse_frames cv cs hchunks]
+
+
+/-- **reader_drains.** For every byte stream `s` whose authentic frames all carry non-empty payloads (true of everything
+the write half produces: `writer_frames`), every buffer size `m > 0` and every transport that keeps delivering:
+`N ≥ |owed|` reads hand out *exactly* the concatenated payloads of the longest authentic prefix of frames of `s` —
+all of it, in order — and leave nothing owed; the stream's status (`clean` end, `truncated`, or `bad` frame) then
+decides, by `reader_step_exact`, whether the next read reports end of stream or `InvalidData`. -/
+theorem reader_drains (cv : Nat → Nat → Nat) (s : List WByte) (hne : ∀ c ∈ (parse cv 0 s).1, c ≠ [])
+    (m : Nat) (hm : 0 < m) (gs : List RdEv) (hg : Generous gs) (hl : s.length < gs.length)
+    (N : Nat) (hN : ((parse cv 0 s).1.flatten).length ≤ N) :
+    ∃ r' w', runReads cv (List.replicate N (m, gs)) Reader.init s = .ok ((parse cv 0 s).1.flatten, r', w') ∧
+      todo cv r' w' = [] ∧ rstatus cv r' w' = (parse cv 0 s).2 := by
+  have hne' : NE cv Reader.init s := by
+    intro c hc
+    apply hne c
+    simpa [chunksOf, Reader.init, Buffer.new, Buffer.slice] using hc
+  obtain ⟨r', w', hrun, htd, hst⟩ := drain cv m gs hm hg N Reader.init s RInv_init hne' hl (by rw [todo_init]; exact hN)
+  rw [todo_init] at hrun
+  refine ⟨r', w', hrun, htd, ?_⟩
+  rw [hst]; simp [rstatus, Reader.init, Buffer.new, Buffer.slice]
+
+/-- **full_delivery.** After any sequence of calls on the write half that leaves it flushed (both buffers empty — e.g.
+a `poll_flush` returned `Ready(Ok)`, `flush_pushes_everything`), a reader over the bytes the transport accepted, with
+any buffer size `m > 0` and a transport that keeps delivering, obtains in `N ≥ |accepted|` reads exactly the
+accepted plaintext — no loss, duplication, reordering or insertion — and then stands at a clean end of stream. -/
+theorem full_delivery (cv : Nat → Nat → Nat) (wops : List WOp) :
+    ∃ sw, wrun WSt.init wops = .ok sw ∧
+      (sw.w.payload.len = 0 → sw.w.frame.len = 0 →
+        ∀ (m : Nat) (gs : List RdEv) (N : Nat), 0 < m → Generous gs → sw.wire.length < gs.length →
+          sw.acc.length ≤ N →
+          ∃ r' w', runReads cv (List.replicate N (m, gs)) Reader.init sw.wire = .ok (sw.acc, r', w') ∧
+            todo cv r' w' = [] ∧ rstatus cv r' w' = .clean) := by
+  obtain ⟨sw, hsw, _, cs, hr, _⟩ := wrun_spec wops WSt.init WInv_init [] WRel_init
+  refine ⟨sw, hsw, ?_⟩
+  intro hp hf m gs N hm hg hl hN
+  have hchunks : ∀ c ∈ cs, c.length ≤ MAX_PAYLOAD_LEN := fun c hc => (hr.chunks c hc).2
+  have hf0 : sw.w.frame.slice = [] := slice_nil_of_len_zero _ hf
+  have hp0 : sw.w.payload.slice = [] := slice_nil_of_len_zero _ hp
+  have hw := hr.wire
+  have ha := hr.acc
+  rw [hf0, List.append_nil] at hw
+  rw [hp0, List.append_nil] at ha
+  have hparse := parse_frames cv cs hchunks
+  have hne : ∀ c ∈ (parse cv 0 sw.wire).1, c ≠ [] := by
+    rw [hw, hparse]
+    intro c hc h
+    have := (hr.chunks c hc).1
+    rw [h] at this; simp at this
+  obtain ⟨r', w', hrun, htd, hst⟩ := reader_drains cv sw.wire hne m hm gs hg hl N (by rw [hw, hparse, ha]; exact hN)
+  rw [hw, hparse] at hrun hst
+  simp only at hrun hst
+  rw [ha] at hrun
+  rw [hw]
+  exact ⟨r', w', hrun, htd, hst⟩
+
+example : ∃ r' w', runReads (fun _ _ => 0) (List.replicate 3 (2, [.give 1, .give 5, .give 100, .give 1]))
+    Reader.init (frame 0 [7, 8, 9]) = .ok ([7, 8, 9], r', w') := ⟨_, _, rfl⟩
 
 end EraVerif.Props.C13
